@@ -148,13 +148,22 @@ func TestVerifRace(t *testing.T) {
 		os.WriteFile(dirs[i]+"/other.txt", []byte("x"), 0o644)
 		os.Symlink(dirs[i]+"/sub/real.txt", dirs[i]+"/link.txt")
 		os.Symlink(dirs[i]+"/sub", dirs[i]+"/dirlink")
+		for j := 0; j < 8; j++ {
+			os.WriteFile(fmt.Sprintf("%s/sub/f%d.txt", dirs[i], j), []byte(fmt.Sprintf("file %d of %d", j, i)), 0o644)
+			os.Symlink(fmt.Sprintf("%s/sub/f%d.txt", dirs[i], j), fmt.Sprintf("%s/l%d.txt", dirs[i], j))
+		}
 	}
 	record := func(i int) string {
 		m, err := RecordArtifacts([]string{dirs[i]}, []string{"sha256"}, nil, []string{dirs[i] + "/"}, true, true)
 		if err != nil {
 			return "error: " + err.Error()
 		}
-		return vRender(len(m)) + vRender(m["sub/real.txt"]["sha256"]) + vRender(m["link.txt"]["sha256"])
+		// ... and without following directory symlinks (file symlinks are followed in both modes)
+		m2, err := RecordArtifacts([]string{dirs[i]}, []string{"sha256"}, nil, []string{dirs[i] + "/"}, false, false)
+		if err != nil {
+			return "error: " + err.Error()
+		}
+		return vRender(len(m)) + vRender(m["sub/real.txt"]["sha256"]) + vRender(m["link.txt"]["sha256"]) + vRender(len(m2)) + vRender(m2["l3.txt"]["sha256"])
 	}
 	signVerify := func(i int) string {
 		mb := &Metablock{Signed: Link{Type: "link", Name: fmt.Sprintf("n%d", i)}}
